@@ -12,18 +12,21 @@ ID = "C18"
 LEVEL = "exploration"
 RULE = ("Hypothesis-generated histories (<=12 ops) of style-consistent mutations of Selector/ListSelector "
         ".objects (list-declared: [i]=, append, insert, extend, pop(i), pop(), remove, clear, replace; "
-        "dict-declared: [k]=, update(mapping/pairs/kwargs), pop(k), pop(i), remove, clear, replace) interleaved with "
+        "dict-declared: [k]=, update(mapping/pairs/kwargs), pop(k), pop(i), remove, clear, replace; refused mutations - absent object, index out of range, missing key, malformed update item - which must change and announce nothing; optionally all through one proxy object kept by the caller, optionally with an onlychanged=False watcher) interleaved with "
         "value assignments (check_on_set=False: non-members, for ListSelector also lists naming a new object twice, are added; histories continue on objects holding such an unlabelled entry), on the class-level Parameter or a per-instance copy; oracle = ordered (name, object) "
         "list model compared after every op. Non-trivial = >=3 mutations incl. a removal, or a value assignment "
         "after a mutation; distinct = distinct case hash.")
 ASSUMPTIONS = [
-    "objects are unique, hashable and have unique str() (the property's 'unique objects')",
+    "objects are unique and have unique str() (the property's 'unique objects'); most are hashable, three are not (two dicts "
+    "with the same keys, a list)",
     "the same object identities are used for removal as for insertion",
     "operations are style-consistent (no list-style insertion on dict-declared objects, which param deprecates)",
 ]
 SIZES = {"quick": 2500, "thorough": 12000}
 
-OBJ = [10, 11, 12, 13, 1000, 1001, "a", "b", "c", "dd", 2.5, (1, 2), (3,), "e", None]
+OBJ = [10, 11, 12, 13, 1000, 1001, "a", "b", "c", "dd", 2.5, (1, 2), (3,), "e", None,
+       # objects that cannot be hashed (named presets): two dicts with the same keys, a list
+       {"w": 1, "h": 1}, {"w": 5, "h": 5}, [7, 8]]
 _NO = object()   # "no fresh object/key available"
 KEYS = ["k0", "k1", "k2", "k3", "k4", "k5", "k6", "k7"]
 NOBJ = len(OBJ)
@@ -46,6 +49,8 @@ def _op_list():
         st.tuples(st.just("replace"), st.lists(_idx, max_size=4)),
         st.tuples(st.just("setval"), _idx, st.booleans()),
         st.tuples(st.just("setval"), _idx, st.booleans()),
+        # a mutation that is refused (absent object, index out of range): nothing changes, nobody is notified
+        st.tuples(st.just("refused"), st.sampled_from(["remove_absent", "pop_out_of_range", "set_out_of_range"]), _idx),
     )
 
 
@@ -64,6 +69,7 @@ def _op_dict():
         st.tuples(st.just("replace"), st.lists(_idx, max_size=4)),
         st.tuples(st.just("setval"), _idx, st.booleans()),
         st.tuples(st.just("setval"), _idx, st.booleans()),
+        st.tuples(st.just("refused"), st.sampled_from(["remove_absent", "pop_out_of_range", "pop_missing_key", "update_malformed"]), _idx),
     )
 
 
@@ -86,6 +92,9 @@ def _case(draw):
         "level": draw(st.sampled_from(["class", "instance"])),
         "init": draw(st.lists(st.integers(0, NOBJ - 1), min_size=1, max_size=4, unique=True)),
         "watch": draw(st.booleans()),
+        # the watcher of `objects` may ask for every event (onlychanged=False); the caller may keep one proxy object
+        # (objs = P.param.s.objects) for all its mutations instead of fetching `.objects` every time
+        "watch_all": draw(st.booleans()), "keep_proxy": draw(st.sampled_from([False, False, True])),
         "cos": cos,
         "ops": [list(o) for o in ops],
     }
@@ -146,7 +155,10 @@ def execute(case):
 
     log = []
     if case["watch"]:
-        holder.param.watch(lambda *evs: log.append(evs), "s", what="objects")
+        holder.param.watch(lambda *evs: log.append(evs), "s", what="objects", onlychanged=not case.get("watch_all"))
+    kept = {"proxy": None}
+    if case.get("keep_proxy") and cos:
+        res.label("one_proxy_kept_by_the_caller")
 
     nmut = 0
     removal = False
@@ -214,7 +226,12 @@ def execute(case):
         noclaim = False
         model_before = list(model)
         unl_before = unl()
-        objs = par().objects
+        if case.get("keep_proxy") and cos:
+            if kept["proxy"] is None:
+                kept["proxy"] = par().objects
+            objs = kept["proxy"]
+        else:
+            objs = par().objects
         if name == "setidx":
             new = _fresh(model, op[2])
             if not model or new is _NO:
@@ -330,12 +347,47 @@ def execute(case):
                 noclaim = True  # same contents: no claim about notification
             if decl == "list":
                 par().objects = list(news)
+                kept["proxy"] = None
                 model[:] = [(str(o), o) for o in news]
             else:
                 d = {KEYS[(i + 3) % NKEY]: o for i, o in enumerate(news)}
                 par().objects = d
+                kept["proxy"] = None
                 model[:] = list(d.items())
                 auto_added = False
+        elif name == "refused":
+            how = op[1]
+            absent = _fresh(model, op[2])
+            try:
+                if how == "remove_absent":
+                    if absent is _NO:
+                        continue
+                    objs.remove(absent)
+                elif how == "pop_out_of_range":
+                    objs.pop(len(model) + 3)
+                elif how == "set_out_of_range":
+                    if absent is _NO:
+                        continue
+                    objs[len(model) + 3] = absent
+                elif how == "pop_missing_key":
+                    if not model or unl():
+                        continue
+                    objs.pop("no-such-key")
+                else:
+                    if absent is _NO:
+                        continue
+                    objs.update([("k9", absent, "one-too-many", "items")])      # not a (key, object) pair
+            except (ValueError, IndexError, KeyError, TypeError):
+                pass
+            else:
+                res.fail("C18.refused_mutation_accepted", f"{tag}: the malformed / impossible mutation did not raise")
+            noclaim = False
+            mutated = False
+            if len(log) != nlog:
+                res.fail("C18.watcher_once", f"{tag}: the mutation was refused (nothing changed) but the objects watcher was called "
+                                             f"{len(log) - nlog} time(s)")
+                nlog = len(log)
+            res.label("refused_mutation")
         elif name == "setkey":
             new = _fresh(model, op[2])
             if new is _NO:
